@@ -18,6 +18,7 @@ import Sb.Corr.UtilOps
 import Sb.Corr.ConvOps
 import Sb.Corr.AllocOps
 import Sb.Corr.PolyOps
+import Sb.Corr.StatsOps
 
 open Sb.Corr
 
@@ -54,6 +55,7 @@ def dispatch (op : String) (args impl : List String) : Verdict :=
   | "alloc" => opAlloc args impl
   | "polymk" => opPolymk args impl
   | "poly" => opPoly args impl
+  | "stats" => opStats args impl
   | "traj" => opTraj args impl
   | "yawq" => opYawq args impl
   | "facc" => opFacc args impl
